@@ -192,7 +192,7 @@ def _is_leaf(x):
                     types.MethodType)):
     return True
   t = type(x)
-  if t.__module__ == 'fsim.stubmod' and t.__name__.endswith('_I'):
+  if t.__module__ == 'fsim.stubmod' and t.__name__.endswith(('_I', '_U')):
     return True   # callable-instance stub: identified by its class
   return False
 
